@@ -325,8 +325,58 @@ def _float_binop(eng, st, op, x, y, origin):
     raise Unsupported(f"float binop {op}")
 
 
+def _pow2_exp(n):
+    return n.bit_length() - 1 if n > 0 and n & (n - 1) == 0 else None
+
+
+def _int_bitop(eng, st, op, a, b, origin):
+    """Bit operators on mathematical (unbounded) ints where one operand is concrete: exact arithmetic
+    characterisations (Python ints are two's complement of unbounded width; z3 div/mod by a positive
+    constant are floor division / non-negative remainder)."""
+    ca = a.py if isinstance(a, VC) and isinstance(a.py, int) else None
+    cb = b.py if isinstance(b, VC) and isinstance(b.py, int) else None
+    if op in ("<<", ">>") and cb is not None:
+        if cb < 0:
+            return [(st, exc("ValueError", "negative shift count", origin))]
+        x = to_int_term(a)
+        if op == "<<":
+            r = VInt(x * (2**cb))
+            r_low = cb
+            v = VInt(x * (2**cb))
+            _LOWZEROS[v.t.get_id()] = (v.t, cb)
+            return [(st, v)]
+        return [(st, VInt(x / (2**cb)))]
+    if op == "^" and (ca is not None or cb is not None):
+        c, x = (ca, to_int_term(b)) if ca is not None else (cb, to_int_term(a))
+        k = _pow2_exp(c)
+        if k is not None:
+            bit = (x / (2**k)) % 2
+            return [(st, VInt(z3.If(bit == 0, x + 2**k, x - 2**k)))]
+    if op == "&" and (ca is not None or cb is not None):
+        c, x = (ca, to_int_term(b)) if ca is not None else (cb, to_int_term(a))
+        k = _pow2_exp(c + 1) if c >= 0 else None
+        if k is not None:  # mask of k low bits
+            return [(st, VInt(x % (2**k)))]
+    if op == "|":
+        # (x << k) | y  with 0 <= y < 2**k  ==  (x << k) + y   (no overlapping bits)
+        for p, q in ((a, b), (b, a)):
+            if isinstance(p, VInt) and p.t is not None and p.t.get_id() in _LOWZEROS:
+                k = _LOWZEROS[p.t.get_id()][1]
+                y = to_int_term(q)
+                if eng.branch(st, z3.Not(z3.And(y >= 0, y < 2**k))) is None:
+                    return [(st, VInt(p.t + y))]
+                # the low bits may overlap: not characterised
+                raise Unsupported(f"| of a shifted value with an operand not provably below 2**{k} at {origin}")
+    raise Unsupported(f"bit operator {op} on unbounded ints {a!r} {b!r}")
+
+
+_LOWZEROS = {}  # id of a term produced by `x << k` -> (term, k)
+
+
 def _bitop(eng, st, op, a, b, origin):
     x, y = to_bv(a), to_bv(b)
+    if (isinstance(a, VInt) and a.bv is None) or (isinstance(b, VInt) and b.bv is None) or isinstance(a, VBool) and False:
+        return _int_bitop(eng, st, op, a, b, origin)
     if x is None or y is None:
         raise Unsupported(f"bit operator {op} on unbounded ints {a!r} {b!r}")
     if op == "&":
@@ -585,7 +635,7 @@ def int_to_str_term(t):
 def py_str(eng, st, a, origin=""):
     if isinstance(a, VC):
         return [(st, VC(str(a.py)))]
-    if isinstance(a, VStr):
+    if isinstance(a, VStr) or type(a).__name__ in ("VAStr", "VChr"):
         return [(st, a)]
     if isinstance(a, VInt):
         return [(st, VStr(int_to_str_term(to_int_term(a))))]
